@@ -52,6 +52,8 @@ def run(ctx):
             e2e.run_one(rep, P, 'Hessdiag', method, None, order, 'sym-min', rule_id='R-HESSDIAG-E2E', dim=2)
     shapes(ctx)
     kinds(ctx)
+    from . import history
+    history.run_cache_scenarios(rep, ctx.repo, 'Hessdiag', 2)
     rep.notes['trusted_base'] = ['python ast', 'ndverif abstract interpreter, stencil / Taylor-signature domain, data-abstract domain']
 
 
